@@ -126,6 +126,12 @@ def main(argv=None):
                     ctx.violations.append({"sig": {"clause": "replay"}, "replay": a.replay})
         else:
             mod.run(ctx)
+        from . import campaign as _camp
+        r = _camp.REALIZED
+        ctx.cov["programs_realized"] = r["ok"]
+        ctx.cov["programs_the_library_refused"] = r["failed"]
+        if r["failed"] and r["failed"] > 0.3 * (r["ok"] + r["failed"]) and not a.replay:
+            raise tlc.MachineryError("vacuity guard: %d of %d programs could not be constructed, e.g. %s" % (r["failed"], r["ok"] + r["failed"], r["examples"]))
         if not a.replay and not os.environ.get("CVH_NO_EVIDENCE"):     # mutation testing against a scratch tree leaves the evidence of /repo alone
             write_evidence(ctx, getattr(mod, "LEVEL", "model_checking"), getattr(ctx, "extra", None))
     except tlc.MachineryError as e:
